@@ -55,6 +55,21 @@ claim("C08", "static: every store to the sequence counter checked for monotonici
       "the actual numbers after arbitrary histories; interactions of WAL retention with sequence numbers stored in SSTables.",
       "DESIGN.md §2 C08")
 
+claim("C01", "static: layer-order direction/dominance rules, tombstone short-circuit guards, P-ORD decision tables (order-abstract interpretation of comparator, Find selection, Insert position, flush dedup, recency comparator), stamp provenance, nil-collapse value-flow, marker-constant agreement",
+      "precedence slices grow by append only and every point lookup consults the newer layer first, walks the slice from the last element down and never falls through after a hit; deletion markers short-circuit; SSTable values are returned only on the exact-key not-a-tombstone edge; the comparator / Find / Insert / flush-dedup decision tables equal the specification over all orderings; stamps are log-assigned; no nil-collapsing copy reaches a 'nil means tombstone' sink and value entries are never nil; flush writes every entry with its own fields; writer and reader share the tombstone marker; the SSTable list is sorted deeper-level-first, older-first at load.",
+      "byte equality for all programs; seek landing inside SSTable blocks (declared under C11, not decided); configuration effects.",
+      "DESIGN.md §2 C01")
+
+claim("C05", "static: source-order direction rules and P-ORD decision tables of the k-way merge (findNextUniqueKey/Seek/SeekToLast), bounds, filter and scan-consumer loops",
+      "source lists are newest first end to end; the merge's selection tables (smallest/greatest key, earlier source wins ties, exhausted and below-target sources skipped, advance exactly while key <= last emitted) equal the specification; checkBounds ⇔ start <= key < end for all nil/non-nil bounds, Seek clamps and refuses, all accessors go through the check; filters expose only passing keys; Scan/TxScan send only non-tombstones, stop at the limit before emitting and count only emitted entries; memtable iterators skip snapshot-invisible nodes; transaction scans overlay the bounded buffer as source 0.",
+      "exactness of the key set for all data sets; seek landing inside SSTable blocks; scans concurrent with writers beyond the snapshot rule.",
+      "DESIGN.md §2 C05")
+
+claim("C18", "static: P-ORD decision tables for comparator / Find / Insert / visibility, publication-order and who-may-write rules, lockset rule for the single writer",
+      "compareWithEntry's table is (key asc, sequence desc) over all 9 orderings; Find replaces its result iff the candidate's sequence is strictly higher and stops at the first different key; descent and insert loops advance exactly while next sorts before the target; the new node's own link is set before the predecessor is redirected, bottom-up, through atomic pointers; node/entry fields are written only in constructors, which copy; Insert runs only under MemTable.mu held exclusively and behind the not-immutable test; immutable is only ever stored true; isVisible ⇔ snapshot == 0 ∨ seq <= snapshot and Next/Seek/SeekToFirst skip invisible nodes.",
+      "what concurrent readers observe under all interleavings; memory-model reasoning beyond 'atomic links, initialised before publication'.",
+      "DESIGN.md §2 C18")
+
 NOT_APPLICABLE_PENDING = "rules for this property are not built yet (work in progress, see DESIGN.md §2); nothing is claimed until the check exists"
 
 def main():
